@@ -165,6 +165,20 @@ def gen_workflow(rng: random.Random, feat: Features) -> dict:
         if n not in on_some:
             sections[0]['lone'].append(n)
 
+    # every task is declared (alone or on the right) at least once so that
+    # its success/failure mode marker appears in the text
+    decl = set()
+    for sec in sections:
+        decl.update(sec['lone'])
+        for ar in sec['arrows']:
+            decl.update(ar['rhs'])
+    for n in names:
+        if n not in decl:
+            for sec in sections:
+                if n in section_tasks(sec):
+                    sec['lone'].append(n)
+                    break
+
     gt = {
         'cycling': 'integer', 'initial': initial, 'final': final,
         'names': names, 'tasks': tasks, 'sections': sections,
@@ -326,6 +340,16 @@ def render_atom(gt, a):
     return s + f':{o}' + ('' if spec['required'] else '?')
 
 
+def render_node(gt, n):
+    """A task on the right of an arrow or alone: declares its mode."""
+    mode = gt['tasks'][n]['mode']
+    if mode == 'both_optional':
+        return n + '?'
+    if mode == 'fail_required':
+        return n + ':fail'
+    return n
+
+
 def render_expr(gt, tree, top=True):
     if tree[0] == 'atom':
         return render_atom(gt, tree)
@@ -369,9 +393,9 @@ def render(gt) -> str:
         L.append(f'        {sec["rec"]} = """')
         for ar in sec['arrows']:
             L.append(f'            {render_expr(gt, ar["lhs"])} => '
-                     f'{" & ".join(ar["rhs"])}')
+                     f'{" & ".join(render_node(gt, r) for r in ar["rhs"])}')
         for n in sec['lone']:
-            L.append(f'            {n}')
+            L.append(f'            {render_node(gt, n)}')
         L.append('        """')
     L.append('[runtime]')
     L.append('    [[root]]')
@@ -442,19 +466,11 @@ def referenced_outputs(gt, name):
 
 
 def effective_mode(gt, name):
-    """What the graph text actually declares about success/failure.
+    """What the graph text declares about success/failure of `name`.
 
-    The generator's per-task mode only shows in the flow file through the
-    qualifiers of atoms that reference the task; with no such atom the
-    default applies (success required)."""
-    td = gt['tasks'][name]
-    ref = referenced_outputs(gt, name)
-    if td['mode'] == 'fail_required' and 'failed' in ref:
-        return 'fail_required'
-    if td['mode'] == 'both_optional' and ref & {'succeeded', 'failed',
-                                                 'finished'}:
-        return 'both_optional'
-    return 'succ_required'
+    Every task appears at least once alone or on the right of an arrow,
+    where render_node writes its mode marker (`n`, `n?`, `n:fail`)."""
+    return gt['tasks'][name]['mode']
 
 
 def required_outputs(gt, name):
